@@ -299,6 +299,11 @@ def plant_all(decls, ns, rng):
     def mut(i, newd):
         ds = copy.deepcopy(decls); ds[i] = newd; return ds
     fbnames = {d[1]: d for d in decls if d[0] == 'F'}
+    # a declaration written twice, word for word, next to itself (equal trees must still count as two declarations)
+    for i, d in enumerate(decls):
+        if d[0] in 'ESRAFUP' and i % 3 == 0:
+            ds = copy.deepcopy(decls); ds.insert(i + 1, copy.deepcopy(d))
+            out.append(('dup-verbatim-adjacent', 'P0019' if d[0] in 'ESRA' else 'P0020', ds))
     for i, d in enumerate(decls):
         k = d[0]
         if k == 'S':
@@ -342,6 +347,15 @@ def plant_all(decls, ns, rng):
                     if foreign and js:
                         j = js[0]; s = body[j]
                         out.append(('undefined-var-declared-in-neighbour', 'P0015', mut(i, (k, d[1], vs, body[:j] + [('a', s[1], s[2] + [foreign[0]])] + body[j + 1:]))))
+            # a global variable of a configuration used without a VAR_EXTERNAL declaration
+            for cd in decls:
+                if cd[0] == 'C':
+                    gl = [v['name'] for v in cd[2] if v['ty'] == 'i' and v['name'] not in own]
+                    js = [j for j, s in enumerate(body) if s[0] == 'a']
+                    if gl and js:
+                        j = js[0]; s = body[j]
+                        out.append(('global-used-without-external', 'P0015', mut(i, (k, d[1], vs, body[:j] + [('a', s[1], s[2] + [gl[0]])] + body[j + 1:]))))
+                    break
             # a call of a function block instance that only a neighbouring POU declares
             if k != 'U':
                 for di in (i - 1, i + 1):
